@@ -115,7 +115,7 @@ def gen_messages(r, module, specs, header_frame):
             violating = True
         else:
             l = r.choice(letters)
-            raw, _ = schemaio.gen_record(r, specs[l], fill=r.choice([0.2, 0.5]))
+            raw, _ = schemaio.gen_record(r, specs[l], fill=r.choice([0.2, 0.5, 0.95]))
             recs.append(raw)
     # distribute over frames
     frames = [header_frame]
@@ -164,7 +164,8 @@ def run(ctx):
     s = Stream("generated-messages")
     lines, pend = [], []
     mods = [m for m in specs_by_mod if m != "generic"]
-    for module in mods + ["generic"]:
+    # unknown analysers first, then every instrument, then unknown analysers again (what one process sees in any order)
+    for module in ["generic"] + mods + ["generic"]:
         if module == "generic":
             header = gens.frame(1, b"H|\\^&|||ACME^1|||||||P|1|20240101120000", True)
             mapping = {l: schemaio.real_class("generic", l) for l in specs_by_mod["generic"]}
@@ -205,10 +206,14 @@ def run(ctx):
     seq = []
     for _ in range(150 if ctx.thorough else 30):
         module = r.choice(mods)
-        head = C17.hub_header(module, r.choice(toks[module]["tokens"]))
+        name = r.choice(["LabHub", "LabHub", "K\xe4fer Labor", "\xb5Lab 7"])       # (latin-1 text in the first frame)
+        head = C17.hub_header(module, r.choice(toks[module]["tokens"]), name=name)
         if head is None:
             continue
-        seq.append(("generic", C17.hub_header("generic")))
+        seq.append(("generic", C17.hub_header("generic", name=name)))
+        if toks[module]["behind"] == "|":
+            # same sender *field*, other receiver: an unknown model
+            seq.append(("generic", head.replace("|%s|" % head.split("|")[9], "|HOST|")))
         seq.append((module, head))
     lines, pend = [], []
     for module, head in seq:
@@ -275,6 +280,9 @@ def run(ctx):
                    "format %r does not deliver the %s rendering" % (fmt, "json" if fmt in ("json", None) else (fmt if fmt == "astm" else "lis2a")),
                    "format-dispatch/%s" % (fmt or "default"))
     streams.append(f)
+    # rendering must not depend on which record classes the process used before (fresh interpreters, both orders)
+    from harness.props import C20
+    streams.append(C20.order_stream(ctx))
     return streams
 
 
